@@ -36,6 +36,7 @@ type SOp struct {
 	K     string `json:"k"` // pub | rm
 	O     int    `json:"o,omitempty"`
 	Ver   uint64 `json:"ver,omitempty"`
+	Zero  bool   `json:"zero,omitempty"` // pub: publish as version 0 ("immutable" in the API's words)
 	Len   int    `json:"len,omitempty"`
 	Cut   []int  `json:"cut,omitempty"`
 	Slack int    `json:"slack,omitempty"`
@@ -88,7 +89,7 @@ func execStores(c SCase) (res evid.Result) {
 	for step, op := range c.Ops {
 		switch op.K {
 		case "pub":
-			if op.O < 0 || op.O >= len(objNames) || op.Len <= 0 || op.Ver == 0 {
+			if op.O < 0 || op.O >= len(objNames) || op.Len <= 0 || (op.Ver == 0 && !op.Zero) {
 				continue
 			}
 			dupVer := false
@@ -245,6 +246,13 @@ func compareStores(step int, m *model, suts []storeUnderTest, cls map[string]boo
 				}
 				continue
 			}
+			if w == nil && best == 0 {
+				// only version-0 ("immutable") packets under the prefix: neither store's prefix
+				// query discovers those (they are meant to be asked for by their full name);
+				// left free -- exact Gets and removals of such packets are judged like any other
+				cls["prefix-query-over-version-0-only:nothing-returned"] = true
+				continue
+			}
 			if w == nil {
 				return fmt.Errorf("step %d: %s: Get(%s, prefix) returns nothing; %d packets of version %d are stored under it", step, s.label, pf, len(cands), best)
 			}
@@ -312,6 +320,20 @@ func genStores(t *rapid.T) SCase {
 			ln := rapid.SampledFrom([]int{1, 7999, 8000, 8001, 16000, 16001, 24001}).Draw(t, "len")
 			op := SOp{K: "pub", O: o, Len: ln, Cut: genCut(t, ln, "s"),
 				Slack: rapid.SampledFrom([]int{0, 0, 0, 1, 3, 4}).Draw(t, "slack")}
+			hasZero := false
+			for _, x := range objs[o].vers {
+				hasZero = hasZero || x == 0
+			}
+			if !hasZero && rapid.IntRange(0, 7).Draw(t, "zeroVersion") == 0 {
+				// version 0: Produce documents it ("0 for immutable"); removal by prefix must still
+				// remove it (seeded defect C15-r4-2: a fast path in BoltStore.Remove that asks the
+				// prefix query first, which never returns version-0 packets)
+				op.Zero = true
+				objs[o].vers = append(objs[o].vers, 0)
+				objs[o].lens = append(objs[o].lens, ln)
+				c.Ops = append(c.Ops, op)
+				continue
+			}
 			for tries := 0; tries < 5 && op.Ver == 0; tries++ {
 				v := rapid.SampledFrom(versionPool).Draw(t, "ver")
 				dup := false
